@@ -44,8 +44,8 @@ package gedcom
 // its "Left". For degenerate (single-day) operands several rows can hold at
 // once; the result must be one of them.
 //
-//@ spec func letter(v int, s int, e int) string = ite(v == s, "e", ite(v == e, "E", ite(v < s, "b", ite(v > e, "A", "a"))))
-//@ spec func cmpCode(a int, b int, c int, d int) int = dateRangeCompareMatrix[letter(a, c, d) + letter(b, c, d)]
+//@ spec func letter(v int, s int, e int, eor bool) string = ite(v == s && v == e, ite(eor, "E", "e"), ite(v == s, "e", ite(v == e, "E", ite(v < s, "b", ite(v > e, "A", "a")))))
+//@ spec func cmpCode(a int, b int, c int, d int) int = dateRangeCompareMatrix[letter(a, c, d, false) + letter(b, c, d, true)]
 //@ spec func inR(r int, a int, b int, c int, d int) bool = (r == DateRangeComparisonEqual && a == c && b == d) || (r == DateRangeComparisonInside && c < a && b < d) || (r == DateRangeComparisonInsideStart && a == c && b < d) || (r == DateRangeComparisonInsideEnd && c < a && b == d) || (r == DateRangeComparisonOutside && a < c && d < b) || (r == DateRangeComparisonOutsideStart && a == c && d < b) || (r == DateRangeComparisonOutsideEnd && a < c && b == d) || (r == DateRangeComparisonPartiallyBefore && a < c && c < b && b < d) || (r == DateRangeComparisonPartiallyAfter && c < a && a < d && d < b) || (r == DateRangeComparisonBefore && a < c && b == c) || (r == DateRangeComparisonAfter && a == d && d < b) || (r == DateRangeComparisonEntirelyBefore && b < c) || (r == DateRangeComparisonEntirelyAfter && d < a)
 //@ spec func conv(r int) int = ite(r == DateRangeComparisonInside, DateRangeComparisonOutside, ite(r == DateRangeComparisonOutside, DateRangeComparisonInside, ite(r == DateRangeComparisonInsideStart, DateRangeComparisonOutsideStart, ite(r == DateRangeComparisonOutsideStart, DateRangeComparisonInsideStart, ite(r == DateRangeComparisonInsideEnd, DateRangeComparisonOutsideEnd, ite(r == DateRangeComparisonOutsideEnd, DateRangeComparisonInsideEnd, ite(r == DateRangeComparisonPartiallyBefore, DateRangeComparisonPartiallyAfter, ite(r == DateRangeComparisonPartiallyAfter, DateRangeComparisonPartiallyBefore, ite(r == DateRangeComparisonBefore, DateRangeComparisonAfter, ite(r == DateRangeComparisonAfter, DateRangeComparisonBefore, ite(r == DateRangeComparisonEntirelyBefore, DateRangeComparisonEntirelyAfter, ite(r == DateRangeComparisonEntirelyAfter, DateRangeComparisonEntirelyBefore, r))))))))))))
 //@ spec func dayOf(d int, m int, y int, eor bool) int = ite(eor, lastDay(d, m, y), firstDay(d, m, y))
@@ -53,7 +53,7 @@ package gedcom
 //@ func compareDatesForLetter
 //@   props C06
 //@   let ok = (shapeOK(value.Day, value.Month, value.Year) && shapeOK(start.Day, start.Month, start.Year) && shapeOK(end.Day, end.Month, end.Year))
-//@   ensures letter: implies(ok, result == letter(dayOf(value.Day, value.Month, value.Year, value.IsEndOfRange), dayOf(start.Day, start.Month, start.Year, start.IsEndOfRange), dayOf(end.Day, end.Month, end.Year, end.IsEndOfRange)))
+//@   ensures letter: implies(ok, result == letter(dayOf(value.Day, value.Month, value.Year, value.IsEndOfRange), dayOf(start.Day, start.Month, start.Year, start.IsEndOfRange), dayOf(end.Day, end.Month, end.Year, end.IsEndOfRange), value.IsEndOfRange))
 //@   assigns nothing
 //
 //@ func DateRange.Compare
